@@ -88,6 +88,36 @@ Proof.
   exists a, pairs. split; [exact E|]. rewrite E. apply left_assoc_total. exact F.
 Qed.
 
+(* converse: the action returns a tree ONLY on well-shaped lists, so the
+   well-shaped lists are exactly its domain *)
+Lemma left_loop_tree_shape : forall rest node t,
+  left_loop node rest = RTree t ->
+  (exists a, node = TNode a) /\ shape_ok is_binop_str rest = true.
+Proof.
+  fix IH 1. intros rest node t H.
+  destruct rest as [|o rest].
+  - simpl in H. destruct node as [a|k]; [|discriminate]. split; [now exists a | reflexivity].
+  - destruct rest as [|x rest]; [discriminate|].
+    simpl in H. destruct o as [ot|k]; [discriminate|].
+    destruct (binop_of_str k) as [op|] eqn:Ek; [|discriminate].
+    destruct node as [a|kn]; [|discriminate].
+    destruct x as [b|kx]; [|discriminate].
+    simpl in H. destruct (IH rest _ _ H) as [_ Hs].
+    split; [now exists a|]. simpl. unfold is_binop_str. rewrite Ek. exact Hs.
+Qed.
+
+Lemma left_assoc_tree_iff_shape : forall toks,
+  (exists t, parse_left toks = RTree t) <-> well_shaped is_binop_str toks = true.
+Proof.
+  intro toks. split.
+  - intros [t H]. unfold parse_left in H.
+    destruct (Nat.even (length toks)); [discriminate|].
+    destruct toks as [|n rest]; [discriminate|].
+    destruct (left_loop_tree_shape rest n t H) as [[a ->] Hs]. exact Hs.
+  - intro H. destruct (left_assoc_total_shape toks H) as [a [pairs [_ E]]].
+    eexists. exact E.
+Qed.
+
 (* in-order traversal of the result is the input sequence (leaf operands) *)
 Lemma inorder_left_nest : forall pairs t,
   inorder (left_nest t (leaves pairs)) =
